@@ -42,13 +42,47 @@ def stop_all(objs):
 
 # ------------------------------------------------------------------ C04
 def consume_scenarios(seed, tier):
+    yield {'kind': 'flush', 'timeout': 20}
     rnd = random.Random(seed)
     for k in range(12 if tier == 'quick' else 200):
         yield {'kind': 'consume', 'posters': rnd.randint(1, 4), 'per': rnd.randint(3, 30),
                'lifo_ratio': rnd.choice([0.0, 0.3]), 'handler_posts': k % 3 == 0, 'timeout': 40}
 
 
+def run_flush(sc):
+    """a handler empties the object's own backlog in the middle of a step; what is posted afterwards is dispatched"""
+    from miros.event import Event
+    log = []
+
+    def extra(chart, e):
+        if e.signal_name == 'C04_FLUSH':
+            chart.queue.clear()
+    ao, fn = make_ao('c04flush', log, handler_extra=extra)
+    try:
+        ao.start_at(fn)
+        time.sleep(0.05)
+        for nm in ('C04_W1', 'C04_FLUSH', 'C04_W2'):
+            ao.post_fifo(Event(signal=nm))
+        time.sleep(0.2)
+        for nm in ('C04_A', 'C04_B'):
+            ao.post_fifo(Event(signal=nm))
+        ao.post_lifo(Event(signal='C04_C'))
+        t0 = time.time()
+        while time.time() - t0 < 1.5 and len([x for x in log if x[0] in ('C04_A', 'C04_B', 'C04_C')]) < 3:
+            time.sleep(0.01)
+        seen = [x[0] for x in log]
+        if not ao.thread.is_alive():
+            return False, 'the active object thread died after a handler cleared the queue; dispatched %s' % seen, 'LockingDeque.clear'
+        if sorted(x for x in seen if x in ('C04_A', 'C04_B', 'C04_C')) != ['C04_A', 'C04_B', 'C04_C']:
+            return False, 'events posted after the flush were not all dispatched: %s' % seen, 'LockingDeque.clear'
+        return True, ''
+    finally:
+        stop_all([ao])
+
+
 def run_consume(sc):
+    if sc.get('kind') == 'flush':
+        return run_flush(sc)
     from miros.event import Event
     log = []
 
